@@ -152,7 +152,7 @@ def check(run):
 def process_mode(run, rng, n):
     from jugverif import procmode
     procmode.stop_family(run, rng, n=n)
-    procmode.exit_condition_family(run, ['stop-file-default', 'stop-file-env', 'stop-file-default-with-env', 'max-tasks', 'max-time'])
+    procmode.exit_condition_family(run, ['stop-file-default', 'stop-file-env', 'stop-file-default-with-env', 'max-tasks', 'max-time', 'max-tasks+barrier', 'stop-file-default+barrier'])
 
 
 def replay(path):
